@@ -48,7 +48,10 @@ OPS = ("flip", "truncate", "extend", "phase_swap", "phase_set", "side_to_peer",
 
 
 def configs(tier):
-    return [{"spake": "real", "reorder_heavy": i % 2 == 1} for i in range(4)]
+    # the fifth configuration: long exchanges (up to 45 messages a side) with
+    # a late verbatim replay of early messages (dedup state under load)
+    return [{"spake": "real", "reorder_heavy": i % 2 == 1} for i in range(4)] \
+        + [{"spake": "real", "long": True}]
 
 
 SWEEP_OPS = (
@@ -258,6 +261,8 @@ def run_sweep_case(seed, tape, opts):
     prefix = ca.PrefixOracle(a, b)
     viol = []
 
+    nvers = {}
+
     def on_app_event(c, kind, value):
         peer = b if c is a else a
         if kind == "versions" and value != peer.versions:
@@ -266,6 +271,13 @@ def run_sweep_case(seed, tape, opts):
                                    "app_versions",
                          "detail": "%s got versions %r, peer passed %r (sweep "
                                    "%r)" % (c.name, value, peer.versions, sw)})
+        if kind == "versions":
+            nvers[c.name] = nvers.get(c.name, 0) + 1
+            if nvers[c.name] > 1:
+                viol.append({"key": "C02.versions_twice", "clause": "never "
+                             "delivers a phase twice", "detail": "%s was "
+                             "given the peer's versions %d times" %
+                             (c.name, nvers[c.name])})
     w.on_app_event = on_app_event
     sim.after_step = prefix.step
 
@@ -308,7 +320,8 @@ def run_sweep_case(seed, tape, opts):
 def run_one(seed, tape, opts):
     if opts.get("sweep"):
         return run_sweep_case(seed, tape, opts)
-    w, a, b = ca.build_pair(tape, opts, max_msgs=4)
+    w, a, b = ca.build_pair(tape, opts, max_msgs=45 if opts.get("long")
+                            else 4)
     sim = w.sim
     # unique, attributable plaintexts
     for c in (a, b):
@@ -320,10 +333,11 @@ def run_one(seed, tape, opts):
                 n += 1
     for c, peer in ((a, "B"), (b, "A")):
         c.script += [("wait_all_delivered_or_steps", peer,
-                      600 + tape.choose(600, "wd")), ("close",)]
+                      (6000 if opts.get("long") else 600) +
+                      tape.choose(600, "wd")), ("close",)]
     ca.pick_faults(tape, w, ("cut", "server_restart", "mbox_dup",
                              "mbox_replay_stored"), 2)
-    tamper_budget = [1 + tape.choose(3, "tb")]
+    tamper_budget = [0 if opts.get("long") else 1 + tape.choose(3, "tb")]
     enabled_ops = [o for o in OPS if tape.choose(3, "op_on") != 0] or ["flip"]
     stash = {"A": [], "B": []}     # every message event seen heading to X
     fired = []
@@ -353,10 +367,38 @@ def run_one(seed, tape, opts):
                     out.append(i)
         return out
 
+    late_replays = [3 if opts.get("long") else 0]
+
+    def late_replay(end):
+        # the server re-sends, verbatim, an early genuine peer message
+        # (version, pake or phase 0) long after it was first delivered
+        c = end.link.owner
+        old_ = [x for x in w.server.stored_messages()
+                if x["side"] != c.side and x["phase"] in ("version", "pake",
+                                                          "0")]
+        if not old_:
+            return
+        x = tape.pick(old_, "late_i")
+        late_replays[0] -= 1
+        end.inflight.append(b"M" + json.dumps(
+            {"type": "message", "side": x["side"], "phase": x["phase"],
+             "body": x["body"], "id": "late"}).encode())
+        fired.append((sim.steps, c.name, "late_replay", x["phase"], None))
+        sim.note("fault.mbox_tamper.late_replay")
+        sim.ev("tamper", c.name, "late_replay", x["phase"])
+
     def extra_faults():
+        evs0 = []
+        if late_replays[0] > 0:
+            for link in w.sim.net.links:
+                if link.mode == "message" and link.up and \
+                        link.owner is not None and link.ends[0].alive and \
+                        len(link.owner.received) >= 33:
+                    evs0.append(("late_replay:%d" % link.serial,
+                                 lambda e=link.ends[0]: late_replay(e), 30))
         if tamper_budget[0] <= 0:
-            return []
-        evs = []
+            return evs0
+        evs = evs0
         for link in w.sim.net.links:
             if link.mode != "message" or not link.up or link.owner is None:
                 continue
@@ -490,6 +532,8 @@ def run_one(seed, tape, opts):
     prefix = ca.PrefixOracle(a, b)
     viol = []
 
+    nvers = {}
+
     def on_app_event(c, kind, value):
         peer = b if c is a else a
         if kind == "versions" and value != peer.versions:
@@ -498,18 +542,35 @@ def run_one(seed, tape, opts):
                                    "app_versions",
                          "detail": "%s got versions %r, peer passed %r" %
                                    (c.name, value, peer.versions)})
+        if kind == "versions":
+            nvers[c.name] = nvers.get(c.name, 0) + 1
+            if nvers[c.name] > 1:
+                viol.append({"key": "C02.versions_twice", "clause": "never "
+                             "delivers a phase twice", "detail": "%s was "
+                             "given the peer's versions %d times (tamper ops "
+                             "%r)" % (c.name, nvers[c.name], fired[:6])})
     w.on_app_event = on_app_event
 
     def oracle():
         prefix.step()
+        if late_replays[0] > 0:
+            for link in sim.net.links:
+                if link.mode == "message" and link.up and \
+                        link.owner is not None and link.ends[0].alive and \
+                        len(link.owner.received) >= 33 and \
+                        not link.owner.close_called and \
+                        tape.chance(100, "late?"):
+                    late_replay(link.ends[0])
+                    break
     sim.after_step = oracle
 
     def done():
         return bool(viol or prefix.violation) or \
             (a.is_closed and b.is_closed and w.scripts_done())
-    sim.run(5000, until=done)
+    sim.run(20000 if opts.get("long") else 5000, until=done)
     w.heal()
     tamper_budget[0] = 0
+    late_replays[0] = 0
     r = sim.run(6000, until=done, max_time=900)
     w.finish()
     v = (viol[0] if viol else None) or prefix.violation
